@@ -159,6 +159,8 @@ OBJS = {
         ),
         "m_xsi.Zoo",
     ),
+    "kennel": (lambda: mx.Kennel(star=mx.Dog(name="rex", bark=3), animal=[mx.Dog(name="fido")], thing=mx.Cat(name="any")), "m_xsi.Kennel"),
+    "zoo_dogs": (lambda: mx.Zoo(star=mx.Dog(name="rex", bark=3), animal=[mx.Dog(name="fido")], thing=mx.Cat(name="any")), "m_xsi.Zoo"),
     "zoo_prims": (lambda: mx.Zoo(thing=Decimal("1.25"), things=[XmlDate(2001, 1, 1), QName("urn:x", "q")]), "m_xsi.Zoo"),
     "derived_dog": (lambda: DerivedElement(qname="{urn:x}animal", value=mx.Dog(name="der", bark=1), type="{urn:x}dog"), "m_xsi.Animal"),
     "anybox": (
@@ -302,6 +304,7 @@ _x("hw_zoo", "m_xsi.Zoo", """
 </zoo>""")
 _x("hw_zoo_prefixed_xsi", "m_xsi.Zoo", """
 <z:zoo xmlns:z="urn:x" xmlns:i="http://www.w3.org/2001/XMLSchema-instance"><z:star i:type="z:cat" lives="1"><z:name>c</z:name></z:star></z:zoo>""")
+_x("hw_kennel", "m_xsi.Kennel", """<kennel xmlns="urn:x"><star><name>rex</name><bark>2</bark></star><animal><name>a</name></animal><thing lives="2"><name>c</name></thing></kennel>""")
 _x("hw_zoo_noclass", None, """<zoo xmlns="urn:x"><animal><name>n</name></animal></zoo>""")
 _x("hw_dog_root_noclass", None, """<dog xmlns="urn:x"><name>d</name><bark>1</bark></dog>""")
 _x("hw_animal_root_xsi", "m_xsi.Animal", """
@@ -390,6 +393,9 @@ JSON = {
     # located by field names only
     "js_noclass_order": ('{"number": 3, "item": [], "comment": "c", "extra": {}}', None, None),
     "js_noclass_unrelated": ('{"name": "n", "only_here": "o"}', None, None),
+    "js_noclass_animal": ('{"name": "n"}', None, None),
+    "js_noclass_cat": ('{"name": "n", "lives": 3}', None, None),
+    "js_noclass_dup1": ('{"first": "f"}', None, None),
     "js_noclass_dog": ('{"name": "n", "bark": 3}', None, None),
     "js_noclass_thing2": ('{"beta": "b", "size": "s"}', None, None),
     "js_noclass_lateroot": ('{"late_one_field": "x", "late_one_count": 1}', None, "L1"),
